@@ -12,6 +12,7 @@ from __future__ import annotations
 
 import re
 
+import math
 import os
 
 import numpy as np
@@ -35,7 +36,7 @@ ASSUMPTIONS = [
 REQUIRED_MONITORS = ["only_documented_tokens_change", "float_size_line", "builds_and_agrees_with_double",
                      "spelling_selects_type", "every_part_has_requested_dtype"]
 REQUIRED_BUCKETS = {"quick": ["a:float32", "a:float64", "a:longdouble", "b:fragment", "c:float32", "c:longdouble",
-                              "d:spelling", "frag:adjacent-double", "frag:string", "frag:hexfloat", "frag:suffixed",
+                              "d:spelling", "c:dispersity-with-cutoff", "system-build:float32", "system-build:float64", "system-build:longdouble", "frag:adjacent-double", "frag:string", "frag:hexfloat", "frag:suffixed",
                               "frag:int-promotion", "frag:exponent-identifier"]}
 REQUIRED_BUCKETS["thorough"] = REQUIRED_BUCKETS["quick"]
 
@@ -271,6 +272,9 @@ def gen_cases(tier, seed):
         cases.append({"id": "build128/" + m, "kind": "build", "model": m, "dtype": "longdouble", "seed": seed,
                       "group": "b-" + m, "cost": 2})
     cases.append({"id": "spellings", "kind": "spell", "group": "spell", "cost": 5})
+    for m, dd in (("sphere", "float32"), ("sphere", "float64"), ("sphere", "longdouble"), ("cylinder", "float32"),
+                  ("hardsphere", "float64"), ("core_shell_sphere", "longdouble")):
+        cases.append({"id": "system/%s-%s" % (m, dd), "kind": "system", "model": m, "dtype": dd, "group": "sys-" + m, "cost": 3})
     for e in COMPOSITES:
         cases.append({"id": "composite/" + e, "kind": "composite", "expr": e, "group": "comp-" + e, "cost": 4})
     return cases
@@ -332,6 +336,29 @@ def run_build(case, rec):
               None if ok else {"model": name, "dtype": d, "q": q, "double": I64, "other": Ix,
                                "max_rel_err": core.maxrel(Ix, I64, 1e-10*scale)},
               key="C15/float32-disagrees/%s" % name if d == "float32" else None)
+    # the same with a size distribution and a non-zero weight cutoff (the cutoff is a real-valued argument of the
+    # compiled kernel too); cutoffs are placed between two weight levels so that no point sits on the threshold
+    cand = [p_ for p_ in sas.usable_pd(i, pars, "1d") if p_.type == "volume"]
+    if cand:
+        from sasmodels import weights as sasweights
+        p_ = cand[0]
+        room = min(abs(pars[p_.name] - p_.limits[0]), abs(p_.limits[1] - pars[p_.name]))/abs(pars[p_.name])
+        wd = min(0.15, 0.9*room/3.0)
+        if wd > 0:
+            pdp = dict(pars, **{p_.name + "_pd": wd, p_.name + "_pd_n": 15, p_.name + "_pd_nsigma": 3.0, p_.name + "_pd_type": "gaussian"})
+            _, ww = sasweights.get_weights("gaussian", 15, wd, 3.0, pars[p_.name], p_.limits, True)
+            lv = np.unique(np.round(np.sort(ww), 12))
+            cuts = [float(math.sqrt(lv[j]*lv[j + 1])) for j in (0, len(lv)//2) if j + 1 < len(lv) and lv[j + 1]/lv[j] > 1.3]
+            for cut in [0.0] + cuts:
+                J64 = np.asarray(direct_model.call_kernel(k64, dict(pdp), cutoff=cut), float)
+                Jx = np.asarray(direct_model.call_kernel(kx, dict(pdp), cutoff=cut), float)
+                sc_ = float(np.max(np.abs(J64 - bg))) if len(J64) else 1.0
+                okc = core.close(Jx, J64, 2e-3 if d == "float32" else 1e-4, (1e-5 if d == "float32" else 1e-6)*sc_ + 1e-6)
+                rec.check("builds_and_agrees_with_double", okc,
+                          None if okc else {"model": name, "dtype": d, "dispersed": p_.name, "cutoff": cut, "double": J64, "other": Jx,
+                                            "max_rel_err": core.maxrel(Jx, J64, 1e-10*sc_)},
+                          key="C15/float32-disagrees/%s" % name if d == "float32" else None)
+            rec.bucket("c:dispersity-with-cutoff")
     prefix = {"float32": "sas32_", "longdouble": "sas128_"}[d]
     import os
     rec.check("library_prefix", os.path.basename(mx.dllpath).startswith(prefix),
@@ -438,7 +465,62 @@ def run_composite(case, rec):
     rec.set_shape(("composite", expr), True)
 
 
+def run_system(case, rec):
+    """The distribution path (core.precompile_dlls -> make_dll(system=True)): the C text handed to the compiler is the
+    converted text, and the library evaluates like the ordinary build of that precision."""
+    from sasmodels import core as sascore, direct_model, kerneldll, generate
+    import tempfile, shutil
+    name, d = case["model"], case["dtype"]
+    i = sas.info(name)
+    dt = np_dtype(d)
+    source = generate.make_source(i)["dll"]
+    work = tempfile.mkdtemp(prefix="c15sys-", dir=os.environ.get("RTM_SCRATCH"))
+    old = kerneldll.SAS_DLL_PATH
+    try:
+        kerneldll.SAS_DLL_PATH = work
+        seen_text = []
+        orig_compile = kerneldll.compile_model
+
+        def spy(source, output):              # observe the text the compiler is given
+            seen_text.append(open(source).read())
+            return orig_compile(source=source, output=output)
+        kerneldll.compile_model = spy
+        try:
+            dll = kerneldll.make_dll(source, i, dtype=dt, system=True)
+        finally:
+            kerneldll.compile_model = orig_compile
+        if not seen_text:
+            rec.inconclusive("the system build did not call the compiler")
+            return
+        ctext = seen_text[-1]
+        compare_streams(rec, source, d, {"model": name, "via": "make_dll(system=True)"})
+        expected = generate.convert_type(source, dt)
+        rec.check("only_documented_tokens_change", ctext == expected,
+                  {"model": name, "dtype": d, "via": "text written for the system build differs from convert_type(source)",
+                   "first_difference": next((k for k, (a, b) in enumerate(zip(ctext, expected)) if a != b), min(len(ctext), len(expected)))})
+        model = kerneldll.load_dll(source, i, dtype=dt)
+        pars = sas.base_pars(i, 5, style="default")
+        s_ = sas.size_scale(i, pars)
+        q = np.exp(np.linspace(np.log(0.05/s_), np.log(5.0/s_), 6))
+        Ix = np.asarray(direct_model.call_kernel(model.make_kernel([q]), dict(pars)), float)
+    finally:
+        kerneldll.SAS_DLL_PATH = old
+    m64 = sascore.build_model(i, dtype="double!", platform="dll")
+    I64 = np.asarray(direct_model.call_kernel(m64.make_kernel([q]), dict(pars)), float)
+    sc_ = float(np.max(np.abs(I64 - pars.get("background", 0.0))))
+    tol = {"float32": (2e-3, 1e-5), "float64": (1e-13, 1e-14), "longdouble": (1e-4, 1e-6)}[d]
+    ok = core.close(Ix, I64, tol[0], tol[1]*sc_ + 1e-300)
+    rec.check("builds_and_agrees_with_double", ok,
+              None if ok else {"model": name, "dtype": d, "via": "system build", "double": I64, "other": Ix,
+                               "max_rel_err": core.maxrel(Ix, I64, 1e-12*sc_)})
+    rec.bucket("system-build:" + d)
+    rec.set_shape((name, d, "system"), True)
+    shutil.rmtree(work, ignore_errors=True)
+
+
 def run_case(case, rec):
+    if case["kind"] == "system":
+        return run_system(case, rec)
     {"src": run_src, "frag": run_frag, "build": run_build, "spell": run_spell, "composite": run_composite}[case["kind"]](case, rec)
 
 
